@@ -191,6 +191,11 @@ def _execute(recipe):
             for di, path, allow in run['adds']:
                 fs.add(defs[di], os.path.join(base, path),
                        allow_global_constraints=allow)
+        else:
+            # the SAME searcher, possibly with further registrations
+            for di, path, allow in run.get('extra_adds') or []:
+                fs.add(defs[di], os.path.join(base, path),
+                       allow_global_constraints=allow)
         one = {'exc': None, 'results': None, 'stats': None,
                'files': [os.path.relpath(f, base) for f in fs.files]}
         try:
